@@ -32,8 +32,8 @@ CONNECTION WITH THE USE OR PERFORMANCE OF THIS SOFTWARE.
 
 typedef struct {
 	unsigned int num_files;
-	unsigned int compressed_length;
-	unsigned int length;
+	size_t compressed_length;
+	size_t length;
 	unsigned int timestamp;
 } FileStatistics;
 
